@@ -2,4 +2,4 @@
 # benign_all.sh [parallelism]: runs, for every property-preserving change filed under benign/, the quick checks named for
 # it in benign/PLAN.txt / PLAN2.txt against a scratch worktree carrying the change; prints one line per (change, check).
 cd /verif
-cat benign/PLAN.txt benign/PLAN2.txt | xargs -P ${1:-3} -L 1 bash -c 'n=$1; shift; /verif/tools/benign_test.sh /verif/benign/$n "$@"'
+cat benign/PLAN.txt benign/PLAN2.txt benign/PLAN3.txt | xargs -P ${1:-3} -L 1 bash -c 'n=$1; shift; /verif/tools/benign_test.sh /verif/benign/$n "$@"'
